@@ -57,12 +57,30 @@ class Ctx:
 
     # ---- inputs
     def leaf(self, name, shape, **kw):
+        if getattr(self, "grad_leaves", False) and kw.get("kind", "real") == "real" and "requires_grad" not in kw:
+            kw["requires_grad"] = True
         if self.symbolic:
             return self.eng.leaf(name, shape, **kw)
         t = replay_leaf(self.model, name, shape, **kw)
         self._leaf_orig = getattr(self, "_leaf_orig", {})
         self._leaf_orig[name] = (t, t.detach().clone())
         return t
+
+    def free_mask(self, name, t):
+        """boolean mask of the entries of leaf `name` that are free variables (not structural zeros / fixed values)"""
+        if self.symbolic:
+            cells = self.eng.leaves[name]["cells"]
+            m = np.array([T.is_term(c) for c in cells.reshape(-1)], dtype=bool).reshape(cells.shape)
+            self._masks = getattr(self, "_masks", {})
+            self._masks[name] = m
+            return torch.from_numpy(m)
+        return torch.ones(tuple(t.shape), dtype=torch.bool) if not hasattr(self, "_replay_masks") else self._replay_masks[name]
+
+    def grad_leaf_items(self):
+        """(name, tensor) of every real leaf created so far that requires grad"""
+        if self.symbolic:
+            return [(n, d["tensor"]) for n, d in self.eng.leaves.items() if d["kind"] == "real" and d["tensor"].requires_grad]
+        return [(n, t) for n, (t, _) in getattr(self, "_leaf_orig", {}).items() if t.dtype.is_floating_point and t.requires_grad]
 
     def same(self, a, b):
         """elementwise equality for use inside boolean oracles: exact in the symbolic run (reals), tolerance-based in the
